@@ -1,1 +1,53 @@
-fn main(){}
+//! snowmc <property> [--tier quick|thorough] [--replay <file>]
+pub mod ctx;
+pub mod exec;
+pub mod props;
+pub mod seam;
+pub mod sess;
+
+use ctx::{Ctx, Tier};
+
+fn main() {
+    // panics inside the subject are caught at the call boundary; keep stderr quiet
+    std::panic::set_hook(Box::new(|_| {}));
+    let args: Vec<String> = std::env::args().collect();
+    if args.len() < 2 {
+        eprintln!("usage: snowmc <Cxx> [--tier quick|thorough] [--replay file]");
+        std::process::exit(2);
+    }
+    let id = args[1].clone();
+    let mut tier = match std::env::var("VERIF_TIER").as_deref() {
+        Ok("thorough") => Tier::Thorough,
+        _ => Tier::Quick,
+    };
+    let mut replay = None;
+    let mut k = 2;
+    while k < args.len() {
+        match args[k].as_str() {
+            "--tier" => {
+                k += 1;
+                tier = if args.get(k).map(String::as_str) == Some("thorough") { Tier::Thorough } else { Tier::Quick };
+            },
+            "--replay" => {
+                k += 1;
+                replay = args.get(k).cloned();
+            },
+            x => {
+                eprintln!("unknown argument {x}");
+                std::process::exit(2);
+            },
+        }
+        k += 1;
+    }
+    let threads = std::env::var("VERIF_THREADS").ok().and_then(|s| s.parse().ok()).unwrap_or(16);
+    rayon::ThreadPoolBuilder::new().num_threads(threads).stack_size(16 << 20).build_global().ok();
+    if let Some(path) = replay {
+        std::process::exit(props::replay(&id, &path));
+    }
+    let code = props::run(&id, tier);
+    std::process::exit(code);
+}
+
+pub fn new_ctx(id: &str, tier: Tier, level: &'static str) -> Ctx {
+    Ctx::new(id, tier, level)
+}
